@@ -158,6 +158,13 @@ func Entry(e *yang.Entry, o Opts, problems *[]string) *yref.XNode {
 	if e.Type != nil {
 		x.Type = Type(e.Type)
 	}
+	for _, v := range e.Extra["if-feature"] {
+		if val, ok := v.(*yang.Value); ok && val != nil {
+			x.IfFeatures = append(x.IfFeatures, val.Name)
+		} else {
+			x.IfFeatures = append(x.IfFeatures, fmt.Sprintf("?%T", v))
+		}
+	}
 	if e.ListAttr != nil {
 		x.HasList = true
 		x.Min, x.Max, x.OrdUser = e.ListAttr.MinElements, e.ListAttr.MaxElements, e.ListAttr.OrderedByUser
@@ -222,6 +229,9 @@ type DiffOpts struct {
 	NS       bool
 	ReadOnly bool
 	Defaults bool // DefaultVal
+	// IfFeatures: compare the if-feature lists (own statements, then those of the uses/augment statements that
+	// placed the node); implicit cases are not compared
+	IfFeatures bool
 	// SkipImplicitCaseNS: do not compare the namespace of implicit case nodes
 	SkipImplicitCaseNS bool
 }
@@ -280,6 +290,9 @@ func Diff(want, got *yref.XNode, o DiffOpts, path string) *D {
 	}
 	if o.Defaults && want.Type != nil && fmt.Sprint(want.DefaultVal) != fmt.Sprint(got.DefaultVal) {
 		return &D{path, "default-values", fmt.Sprintf("expected %q, observed %q", want.DefaultVal, got.DefaultVal)}
+	}
+	if o.IfFeatures && !want.Implicit && fmt.Sprint(want.IfFeatures) != fmt.Sprint(got.IfFeatures) {
+		return &D{path, "if-features", fmt.Sprintf("expected %v, observed %v", want.IfFeatures, got.IfFeatures)}
 	}
 	if (want.Children == nil) != (got.Children == nil) {
 		return &D{path, "child-map-presence", fmt.Sprintf("expected child map %v, observed %v", want.Children != nil, got.Children != nil)}
